@@ -150,6 +150,9 @@ def run(ctx):
         r4.violation(k, "%s  [witness: %s]" % (m, wit), where)
     r4.ok("typestate exploration", "%d reachable stores, %d transitions" % (len(R), it.ntrans), "src/receiver/objectreceiver.rs")
 
+    from . import c01
+    c01.decoding_params_provenance(ctx, ctx.rule("C03.R6", c01.DECODING_TEXT, "WWF + value provenance"))
+
     # ---- R5 -----------------------------------------------------------------------------------
     r5 = ctx.rule("C03.R5", "ObjectReceiver::push does nothing but record the timestamp unless state == Receiving", "DOM")
     p = prog.fn(OR + "::push")
